@@ -43,7 +43,15 @@ class Check(RecordingCheck):
             n += self.witness_transient_and_crash(work)
             n += self.witness_cse(work)
             n += self.witness_import(work)
-            # 2. search: faults at every commit inside record_call_node of the workloads, then an edit
+            # 2. search: plain edit histories (no fault), then faults at every commit inside
+            #    record_call_node of the workloads followed by an edit
+            for name in ("chain", "two_args"):
+                o = self.e2e(name, [], work, f"b{n}")
+                n += 1
+                if (o["edited"][0] == "ok" and o["stale_edited"]) or (o["same"][0] == "ok" and o["stale_same"]):
+                    self.findings.append(Finding(
+                        f"stale-shallow-hit:no-fault:{name}", f"workload {name}, no fault: after editing leaf the run returns "
+                        f"{o['edited'][1]!r}, a fresh backend {o['expected_edited'][1]!r}", {"kind": "e2e", "workload": name, "plan": []}))
             names = ["chain"] if self.tier == "quick" else list(rl.WORKLOADS)
             for name in names:
                 db = rl.fresh_db(str(work), "probe.db")
@@ -80,7 +88,7 @@ class Check(RecordingCheck):
         unknown = [f for f in self.findings if f.key not in known]
         self.ob("oracle", f"implementation oracle: {n} end-to-end histories (fault / import / CSE, edit leaf, re-run vs fresh backend)",
                 not unknown, "; ".join(f.what for f in unknown[:5]))
-        if self.variant == "fixed" and self.findings:
+        if self.variant == "fixed" and [f for f in self.findings if f.key in known]:
             # the code claims the repaired configuration but a witness still reproduces
             self.ob("oracle", "repaired configuration: no witness reproduces", False, "; ".join(f.key for f in self.findings[:5]))
 
